@@ -180,6 +180,9 @@ impl<'a> Compiler<'a> {
     }
 
     fn compile_expr(&mut self, node: Node<ast::Expr>, state: &mut TypeState) -> Option<Expr> {
+        #[cfg(feature = "verif-hooks")]
+        crate::verif::yield_point("compile-expr");
+
         use ast::Expr::{
             Abort, Assignment, Container, FunctionCall, IfStatement, Literal, Op, Query, Return,
             Unary, Variable,
